@@ -109,7 +109,8 @@ def function_sweep(ck):
     import model
     from skepticoin import consensus as C
     from skepticoin import pow as P
-    rng = ck.rng
+    import random as _random
+    rng = _random.Random(ck.seed * 7919 + 5)      # own stream: the scenarios that follow keep theirs
     span = common.param('DESIRED_TARGET_READJUSTMENT_TIMESPAN')
     period = common.param('BLOCKS_BETWEEN_TARGET_READJUSTMENT')
     top = 2 ** 256 - 1
@@ -117,6 +118,7 @@ def function_sweep(ck):
     for k in range(1, 257):
         lo, hi = 2 ** (k - 1), 2 ** k - 1
         targets.update((lo, hi, rng.randint(lo, hi)))
+    targets.update(rng.randint(2 ** 255, top) for _ in range(40))
     targets = sorted(targets)
     times = [0, 1, 2, 59, 600, span // 4, span // 2, span - 1, span, span + 1, 2 * span - 1, 2 * span, 4 * span, 4 * span + 1,
              2 ** 31, 2 ** 32 - 1, 2 ** 32, 2 ** 63, 2 ** 64 - 1]
